@@ -69,7 +69,16 @@ def trav0 (n cp : Nat) : Trav :=
 theorem traverse_outInv (sk : Skel) (h : NavGraphOK sk) (cp : Nat) (hcp : findConstantOp sk = some cp) :
     OutInv (mkNav sk) (travLoop (mkNav sk) (4 * ((mkNav sk).nlegs + 8) * ((mkNav sk).nlegs + 8))
       (4 * ((mkNav sk).nlegs + 8) * ((mkNav sk).nlegs + 8))
-      (trav0 (mkNav sk).ops.size cp)) := by
+      (trav0 (mkNav sk).ops.size cp)) ∧
+    HalfOK (mkNav sk) (travLoop (mkNav sk) (4 * ((mkNav sk).nlegs + 8) * ((mkNav sk).nlegs + 8))
+      (4 * ((mkNav sk).nlegs + 8) * ((mkNav sk).nlegs + 8))
+      (trav0 (mkNav sk).ops.size cp)) (fun _ => False) ∧
+    (travLoop (mkNav sk) (4 * ((mkNav sk).nlegs + 8) * ((mkNav sk).nlegs + 8))
+      (4 * ((mkNav sk).nlegs + 8) * ((mkNav sk).nlegs + 8))
+      (trav0 (mkNav sk).ops.size cp)).frontier = [] ∧
+    (travLoop (mkNav sk) (4 * ((mkNav sk).nlegs + 8) * ((mkNav sk).nlegs + 8))
+      (4 * ((mkNav sk).nlegs + 8) * ((mkNav sk).nlegs + 8))
+      (trav0 (mkNav sk).ops.size cp)).unmapped (mkNav sk) = none := by
   obtain ⟨hlt, o, ho, hoe⟩ := findConstantOp_some sk cp hcp
   have hN := h.spec
   have hp : cp < (mkNav sk).ops.size := by rw [h.size]; exact hlt
@@ -91,10 +100,14 @@ theorem traverse_outInv (sk : Skel) (h : NavGraphOK sk) (cp : Nat) (hcp : findCo
   have hef : 2 * nav.nlegs + 1 ≤ 4 * (nav.nlegs + 8) * (nav.nlegs + 8) := by omega
   rw [show travLoop nav (4 * (nav.nlegs + 8) * (nav.nlegs + 8)) (4 * (nav.nlegs + 8) * (nav.nlegs + 8)) =
     travLoop nav (4 * (nav.nlegs + 8) * (nav.nlegs + 8)) (F + 1) by rw [hFeq]]
-  obtain ⟨t'', heq, hu'', hG'', hm⟩ := travLoop_pop hN _ hef F _ hu0 cp false [(cp, true)] rfl hp hnv
-    (fun _ => hlab0 _) (fun hb => by rw [hlab0] at hb; simp at hb) (fun e he => Or.inr (by simpa using he))
+  have hH0 : HalfOK nav (trav0 nav.ops.size cp) (fun _ => False) := by
+    intro q s' _ _ hsome _
+    rw [hlab0] at hsome; cases hsome
+  obtain ⟨t'', heq, hu'', hG'', hH'', hm⟩ := travLoop_pop hN _ hef F _ hu0 cp false [(cp, true)] rfl hp hnv
+    (fun _ => hlab0 _) (fun hb => by rw [hlab0] at hb; simp at hb) (fun e he => Or.inr (by simpa using he)) hH0
+    (fun _ => by simp)
   rw [heq]
-  refine travLoop_ok hN _ hef F t'' hu'' hG'' ?_
+  refine travLoop_ok hN _ hef F t'' hu'' hG'' hH'' ?_
   have hpsi0 : Psi nav (trav0 nav.ops.size cp) ≤ 2 + nav.nlegs + 5 * nav.nlegs := by
     unfold Psi
     have := pend_le_nlegs hN (trav0 nav.ops.size cp)
@@ -111,7 +124,7 @@ theorem travOK_of_navGraphOK (s : Slots) (hn : NodupVars s) (h : NavGraphOK (ske
   · cases hcp : findConstantOp (skeleton s) with
     | none => constructor <;> simp [traverse, h0, hcp]
     | some cp =>
-      have hout := traverse_outInv (skeleton s) h cp hcp
+      have hout := (traverse_outInv (skeleton s) h cp hcp).1
       have htr : (traverse (skeleton s)).bad = (travLoop (mkNav (skeleton s))
             (4 * ((mkNav (skeleton s)).nlegs + 8) * ((mkNav (skeleton s)).nlegs + 8))
             (4 * ((mkNav (skeleton s)).nlegs + 8) * ((mkNav (skeleton s)).nlegs + 8))
@@ -147,8 +160,8 @@ theorem travOK_of_navGraphOK (s : Slots) (hn : NodupVars s) (h : NavGraphOK (ske
       simp only [List.getElem_map, Array.getElem_toList] at hij
       have hi : i.1 < r.reps.size := by have := i.2; simpa using this
       have hj : j.1 < r.reps.size := by have := j.2; simpa using this
-      obtain ⟨qi, a1, a2, a3, a4⟩ := hout.repsOK i.1 hi
-      obtain ⟨qj, b1, b2, b3, b4⟩ := hout.repsOK j.1 hj
+      obtain ⟨qi, a1, a2, a3, a4, -⟩ := hout.repsOK i.1 hi
+      obtain ⟨qj, b1, b2, b3, b4, -⟩ := hout.repsOK j.1 hj
       have ei : r.reps[i.1]'hi = (mkNav (skeleton s)).sideLeg qi := by
         rw [← a3]; simp [Array.getElem!_eq_getD, Array.getD_eq_getD_getElem?, hi]
       have ej : r.reps[j.1]'hj = (mkNav (skeleton s)).sideLeg qj := by
